@@ -136,6 +136,8 @@ class Model:
                 out.append(n[1])
             elif k == "raw":
                 out.append(n[1])
+            elif k == "ph":
+                pass  # dependency placeholder: replaced by the generated tags, which the oracle strips
             elif k == "var":
                 out.append(self.to_str(env.lookup(n[1])))
             elif k == "varf":
@@ -268,7 +270,7 @@ class Model:
         def walk(nodes, e):
             for n in nodes:
                 k = n[0]
-                if k in ("text", "raw"):
+                if k in ("text", "raw", "ph"):
                     text.append(n[1])
                 elif k == "var":
                     text.append(self.to_str(e.lookup(n[1])))
